@@ -15,6 +15,21 @@ pub fn run(ctx: &Ctx) -> i32 {
         bases.push(("d1g".into(), gen::d1(&Fmt::Gray)));
         bases.push(("d1i".into(), gen::d1(&Fmt::Indexed(4))));
     }
+    // the header's flag word cleared (bit 0 = "layer opacity valid"), layer opacities below 255
+    {
+        let mut f = gen::b2();
+        f.header.flags = 0;
+        let mut k = 0u8;
+        for fr in f.frames.iter_mut() {
+            for c in fr.chunks.iter_mut() {
+                if let Body::Layer(l) = &mut c.body {
+                    l.opacity = 200 - 40 * (k % 3);
+                    k += 1;
+                }
+            }
+        }
+        bases.push(("b2-header-flags-0".into(), f));
+    }
     // degenerate entities: layers without cels, a group, tilemap cels without tiles, a one-frame tag
     {
         let fmt = Fmt::Rgba;
